@@ -619,8 +619,21 @@ func (p *Prog) esLockStates(mu *types.Var) map[*ssa.Function]map[ssa.Instruction
 			}
 		}
 	}
+	hasPkgCaller := map[*ssa.Function]bool{}
+	for _, f := range rescFns {
+		for _, call := range callsIn(f) {
+			if _, isGo := call.(*ssa.Go); isGo {
+				continue
+			}
+			if sf := call.Common().StaticCallee(); sf != nil && sf != f {
+				if _, ok := entry[sf]; ok {
+					hasPkgCaller[sf] = true
+				}
+			}
+		}
+	}
 	states := map[*ssa.Function]map[ssa.Instruction]int{}
-	for iter := 0; iter < 40; iter++ {
+	for iter := 0; iter < 200; iter++ {
 		changed := false
 		for _, f := range rescFns {
 			e := entry[f]
@@ -667,11 +680,22 @@ func (p *Prog) esLockStates(mu *types.Var) map[*ssa.Function]map[ssa.Instruction
 			}
 		}
 		if !changed {
-			// propagation is stable: entry points nobody in the package calls start unlocked
+			// propagation is stable: entry points nobody in the package calls start unlocked — first the
+			// functions without a caller inside the package (their callees then get the state of the call
+			// site), and only when that settles nothing more, whatever is left (call cycles)
 			for _, f := range rescFns {
-				if entry[f] == -1 && f.Parent() == nil {
+				if entry[f] == -1 && f.Parent() == nil && !hasPkgCaller[f] {
 					entry[f] = 0
 					changed = true
+				}
+			}
+			if !changed {
+				for _, f := range rescFns {
+					if entry[f] == -1 && f.Parent() == nil {
+						entry[f] = 0
+						changed = true
+						break
+					}
 				}
 			}
 			if !changed {
@@ -756,7 +780,15 @@ func ruleGuardedBy(c *Ctx) {
 		}
 		for _, fa := range p.faddrs[fld] {
 			f := fa.Parent()
-			if _, isAlloc := fa.X.(*ssa.Alloc); isAlloc {
+			base := fa.X
+			for {
+				inner, isFA := base.(*ssa.FieldAddr)
+				if !isFA {
+					break
+				}
+				base = inner.X // the counter wrapped in a nested struct of the new entry
+			}
+			if _, isAlloc := base.(*ssa.Alloc); isAlloc {
 				continue // construction
 			}
 			c.inst(1)
